@@ -31,7 +31,8 @@
   run time they stay alive (`Block::resolve` does not remove them); nothing of the type inference
   reads the annotation (it is used by the side conditions of the soundness theorem only).
 
-  Panics of the kind operations (`-isize::MIN`, `D_remove_neg_underflow`) are compile-time panics of
+  Panics of the kind operations (`-isize::MIN`; the subtraction underflow of `remove` is gone since
+  e3023e2) are compile-time panics of
   the real compiler (C04): `typeInfo` is total, keeps the kind and sets the `oom` marker.
   Function calls are outside this model: `typeInfo` sets `oom` for every tree containing a `call`.
 -/
